@@ -1382,7 +1382,7 @@ func checkMergeResultEntityUse(c *Ctx) {
 							return false
 						}
 						bo, isBo := iff.Cond.(*ssa.BinOp)
-						if !isBo || bo.Op != token.EQL || succ != 0 {
+						if !isBo || !((bo.Op == token.EQL && succ == 0) || (bo.Op == token.NEQ && succ == 1)) {
 							return false
 						}
 						for _, pr := range [][2]ssa.Value{{bo.X, bo.Y}, {bo.Y, bo.X}} {
